@@ -31,6 +31,14 @@ def same_vars(e1, e2):
 def conditions():
     L = list(lits(A2)) + list(lits(AI))
     yield from L
+    TA, TB = ("truth", ("attr", "x", "a")), ("truth", ("attr", "x", "b"))
+    for t_ in (TA, TB):
+        yield t_
+        yield ("not", t_)
+        for c_ in (("cmp", "==", t_[1], ("attr", "y", "b")), ("cmp", ">=", t_[1], ("const", 0))):
+            yield ("and", ("not", t_), c_)
+            yield ("and", t_, c_)
+            yield ("and", c_, ("not", t_))
     for p in lits(AP):
         yield p
         yield ("and", p, A2[0])
@@ -43,6 +51,13 @@ def conditions():
         yield ("and", p, q)
         if same_vars(p, q):
             yield ("or", p, q)
+    # three-conjunct chains below an else-if: a MIDDLE conjunct that fails must still let the alternative be tried
+    X = [e for e in lits(A2[:4])]
+    for p_, q_, r_ in itertools.product(X[:4], X[2:6], X[4:8]):
+        if len({repr(p_), repr(q_), repr(r_)}) == 3:
+            for d_ in (X[1], X[6]):
+                yield ("or", ("and", ("and", p_, q_), r_), d_)
+                yield ("or", d_, ("and", ("and", p_, q_), r_))
     base = list(lits(A2[:5]))
     for p, q, r in itertools.product(base, repeat=3):
         if p is q or q is r or p is r:
@@ -83,7 +98,7 @@ jobs += [(wi, c, "project") for wi in range(4) for c in conditions() if len(G.fr
 import zlib
 def always(c):
     """single literals and every condition with a predicate call are never sampled away"""
-    return c[0] not in ("and", "or") or "'pred'" in repr(c)
+    return c[0] not in ("and", "or") or "'pred'" in repr(c) or "'truth'" in repr(c) or (c[0] == "or" and (c[1][0] == "and" and c[1][1][0] == "and" or c[2][0] == "and" and c[2][1][0] == "and"))
 
 
 jobs = [j for j in jobs if a.tier == "thorough" or always(j[1]) or zlib.crc32(repr(j).encode()) % 3 == (a.seed % 3)]
